@@ -202,14 +202,19 @@ def run(tier, seed):
   for i in range(nspace):
     goal = r.choice(list(vz.ObjectiveMetricGoal))
     flip = r.random() < 0.5
-    mi = vz.MetricInformation(name='m', goal=goal)
-    oc = core.DefaultModelOutputConverter(mi, flip_sign_for_minimization_metrics=flip, dtype=np.float64)
+    # objective metrics and safety metrics (with a threshold that the model form is shifted by, or not)
+    thr = None if i % 3 else r.choice([2.0, -1.5, 0.0, 10.0])
+    shift = r.random() < 0.7
+    mi = vz.MetricInformation(name='m', goal=goal) if thr is None else vz.MetricInformation(name='m', goal=goal, safety_threshold=thr)
+    oc = core.DefaultModelOutputConverter(mi, flip_sign_for_minimization_metrics=flip, dtype=np.float64) if thr is None else \
+        core.DefaultModelOutputConverter(mi, flip_sign_for_minimization_metrics=flip, dtype=np.float64, shift_safe_metrics=shift)
     vals = [r.choice([0.0, 1.5, -2.25, 1e6, 3.0]) for _ in range(4)]
     labels = oc.convert([vz.Measurement({'m': v}) for v in vals])
     back = [m.value for m in oc.to_metrics(labels)]
     rep.case({'labels': vals, 'goal': goal.name, 'flip': flip}, flip and goal.name == 'MINIMIZE')
     if back != vals:
-      viol('objective labels do not round-trip through convert / to_metrics', {'values': vals, 'goal': goal.name, 'flip': flip, 'back': back})
+      viol('%s labels do not round-trip through convert / to_metrics' % ('objective' if thr is None else 'safety-metric'),
+           {'values': vals, 'goal': goal.name, 'flip': flip, 'safety_threshold': thr, 'shift_safe_metrics': shift if thr is not None else None, 'back': back})
     # the same label array in the shapes callers use - (n, 1), (n,), a column of a label matrix - decoded twice: the second
     # decoding gives the same metrics and the array is left as it was (safety metrics with a threshold included)
     for shape_ in ('n1', 'n', 'column'):
@@ -227,7 +232,7 @@ def run(tier, seed):
              {'values': vals, 'goal': goal.name, 'flip': flip, 'first': first_, 'second': second_, 'array_before': before_.tolist(),
               'array_after': np.asarray(arr_).tolist()})
         break
-    want = [-v if (flip and goal.name == 'MINIMIZE') else v for v in vals]
+    want = [(-1.0 if (flip and goal.name == 'MINIMIZE') else 1.0) * (v - (thr if (thr is not None and shift) else 0.0)) for v in vals]
     if labels.flatten().tolist() != want:
       viol('label sign convention differs from the documented one', {'values': vals, 'goal': goal.name, 'flip': flip, 'labels': labels.flatten().tolist()})
   # ---- padding
